@@ -185,10 +185,6 @@ theorem bdelSlice_nat (d : Bits) (a b : Nat) (ha : a ≤ d.length) (hb : b ≤ d
   congr 2
   omega
 
-/-- With `mult = 1` the bit width is `L`. -/
-theorem w_eq_L {V} (c : Codec V) (hu : c.mult = 1) : c.w = c.L := by
-  simp [Codec.w, hu]
-
 /-- Replacing / removing / inserting whole blocks, in block form. -/
 theorem set_block (w : Nat) (bs : List Bits) (t nb : Bits) (hbs : ∀ b ∈ bs, b.length = w) (k : Nat) (hk : k < bs.length) :
     (bs.flatten ++ t).take (k * w) ++ nb ++ (bs.flatten ++ t).drop (k * w + w) = (bs.set k nb).flatten ++ t := by
